@@ -21,9 +21,9 @@ class NotifyServer:
 
         while True:
             try:
-                data = await reader.read(32)
-                if not data:
-                    break
+                # event ids are 32 bytes: relay whole ids only, so that ids
+                # announced by different workers cannot interleave mid-id
+                data = await reader.readexactly(32)
                 self.log.debug(
                     "Broadcasting %s to %s connections",
                     data.hex(),
@@ -34,6 +34,9 @@ class NotifyServer:
                     if peer != writer:
                         peer.write(data)
                         await peer.drain()
+            except asyncio.IncompleteReadError:
+                # peer closed the connection
+                break
             except asyncio.exceptions.CancelledError:
                 writer.close()
                 break
@@ -80,13 +83,15 @@ class NotifyClient:
 
         while True:
             try:
-                data = await reader.read(32)
-                if not data:
-                    break
+                # a TCP read may return part of an id: wait for all 32 bytes
+                data = await reader.readexactly(32)
                 event = await self.storage.get_event(data.hex())
                 if event:
                     self.log.debug("Got %s", data.hex())
                     await self.storage.notify_all_connected(event)
+            except asyncio.IncompleteReadError:
+                # server closed the connection
+                break
             except asyncio.exceptions.CancelledError:
                 self.writer.close()
                 break
